@@ -166,6 +166,11 @@ def materialise(case: dict) -> tuple[list[dict], list[Record | None], list[int]]
         tok, pad = case["metas"][m]
         pseud = tokens[tok][0]
         body = json.dumps({"name": f"attribute{m}", "variant": variant, "pad": "x" * pad}).encode()
+        if (m + variant + pad) % 3 == 1:
+            # the JSON other implementations write: compact separators, an exponent-form number, non-ASCII left as it is -
+            # signed as it is, so it has to come back as it is
+            body = ('{"name":"attribute%d","variant":%d,"date":1.7E9,"pad":"%s","note":"\u00e9t\u00e9"}'
+                    % (m, variant, "x" * pad)).encode().replace(b"\\u00e9", "\u00e9".encode())
         return pseud, Metadata(tokens[tok][1].get_hash(), body, private_key=keypool.key(pseud))
 
     sk, _ = _boneh()
@@ -257,7 +262,10 @@ def materialise(case: dict) -> tuple[list[dict], list[Record | None], list[int]]
                 tok = Token(prev, content=prf(f"subst/{j}", 8), private_key=key)
                 prev = tok.get_hash()
                 toks.append(tok)
-                md = Metadata(tok.get_hash(), json.dumps({"name": f"disclosed{j}", "pad": "y" * pad}).encode(), private_key=key)
+                body = json.dumps({"name": f"disclosed{j}", "pad": "y" * pad}).encode()
+                if (j + pad) % 2:
+                    body = ('{"name":"disclosed%d","pad":"%s","n":1E3}' % (j, "y" * pad)).encode()
+                md = Metadata(tok.get_hash(), body, private_key=key)
                 metas_o.append({"tp": md.token_pointer.hex(), "sig": md.signature.hex(), "json": md.serialized_json_dict.hex()})
                 sub.append(Record("Metadata", (pk, md.token_pointer, md.signature, md.serialized_json_dict), (0, 1), md, None))
                 for a in auths_of[j] if j < len(auths_of) else []:
